@@ -3,7 +3,7 @@
 /repo's working tree on sys.path: calls the REAL Python API `values()` exactly as a user would.
 
 usage: py_values_driver.py <module dir> <jobs.json> <results.json>
-jobs: [{"file": path, "requests": [{"chrom", "start", "end", "bins", "summary", "exact", "missing", "oob", "arr"}, …]}, …]
+jobs: [{"file": path, "open": "path" | "bytesio" | "short7" | "short1000", "requests": [{"chrom", "start", "end", "bins", "summary", "exact", "missing", "oob", "arr"}, …]}, …]
       ("arr": x = pass `arr=` an array of the right size pre-filled with x; the answer must not depend on it)
 results: per job a list of either {"v": [f64 hex…]} or {"exc": "<type>: <message>"}.
 """
@@ -20,7 +20,33 @@ def main():
     for job in jobs:
         res = []
         try:
-            f = pybigtools.open(job["file"])
+            how = job.get("open", "path")
+            if how == "path":
+                f = pybigtools.open(job["file"])
+            else:
+                import io
+
+                class Short(io.RawIOBase):
+                    """a file-like object whose read(n) delivers at most `chunk` bytes per call (a raw / pipe- / network-backed
+                    stream): legal for Python's read(), and the reader must still get every byte"""
+                    def __init__(self, path, chunk):
+                        self.f, self.chunk = open(path, "rb"), chunk
+
+                    def read(self, n=-1):
+                        return self.f.read(self.chunk if n is None or n < 0 else min(n, self.chunk))
+
+                    def readable(self):
+                        return True
+
+                    def seekable(self):
+                        return True
+
+                    def seek(self, off, whence=0):
+                        return self.f.seek(off, whence)
+
+                    def tell(self):
+                        return self.f.tell()
+                f = pybigtools.open(Short(job["file"], 7 if how == "short7" else 1000) if how.startswith("short") else io.BytesIO(open(job["file"], "rb").read()))
         except BaseException as e:
             out.append([{"exc": f"open: {type(e).__name__}: {str(e)[:120]}"}] * len(job["requests"]))
             continue
